@@ -57,7 +57,7 @@ def build(case, seedkey="seed", mesh=None, allow_pre=False):
         arr = arr.astype(np.int64)
     elif narrow:
         arr = {"uint8": np.abs(arr) * 28, "int8": arr * 14, "int16": arr * 3600, "bool": arr > 0}[case["dtype"]].astype(dt)
-    f = df.Field(mesh, nvdim=case["nvdim"], value=arr, dtype=dt, unit=case["unit"], valid=gen.make_mask(case["mask"], n))
+    f = df.Field(mesh, nvdim=case["nvdim"], value=np.array(arr, copy=True), dtype=dt, unit=case["unit"], valid=gen.make_mask(case["mask"], n))
     pre = case.get("pre", "none")
     if allow_pre and pre == "sibling-moved":
         # other meshes made FROM this one (a translated / scaled copy, a mesh built from its region and `n`) are changed
